@@ -160,7 +160,7 @@ def expected(model, args):
         return ("count", _cached("count_magic_sequences", args[0]))
     if model == "golomb":
         n = args[0]
-        return ("opt", n - 2, "min", M.GOLOMB[n])
+        return ("opt", n - 2, "min", M.GOLOMB[n]) if n in M.GOLOMB else ("sat", True)
     if model == "bibd":
         v, b, r, k, l, sym = args
         if sym:
@@ -320,6 +320,8 @@ def instances(tier, interpreted):
     for n in (6, 7) + ((8,) if big else ()):
         add("golomb", [n, True], ["opt"], heavy=True)
     add("golomb", [6, False], ["opt"], heavy=True)
+    for n in (15, 16, 17):  # around the end of the model's table of known optimal lengths
+        add("golomb", [n, True], ["first"], heavy=True)
     for a in ([3, 3, 2, 2, 1], [4, 6, 3, 2, 1], [4, 4, 3, 3, 2], [3, 4, 2, 2, 1]):
         for sym in (True, False):
             add("bibd", a + [sym], ["count"])
@@ -366,6 +368,8 @@ def c20_case(draw, tier, interpreted):
         cfg = {"cons": draw(st.sampled_from(["bc", "bc", "shaving"])), "var": draw(st.sampled_from(["first", "smallest", "greatest"])), "dom": draw(st.sampled_from(["min", "max", "split_low", "mid"]))}
     if model == "golomb" and draw(st.booleans()):
         cfg["cons"] = "golomb"
+    if model == "golomb" and args[0] >= 15 and cfg["cons"] == "shaving":
+        cfg["cons"] = "bc"  # shaving 105+ distance variables takes minutes per node
     if model == "tsp":
         n = draw(st.integers(3, 6 if tier == "quick" else 7))
         mat = [[0 if i == j else draw(st.integers(1, 9)) for j in range(n)] for i in range(n)]
